@@ -447,6 +447,16 @@ func appendChain(v ssa.Value) []string {
 			out = append([]string{"init:" + shape(v, 3)}, out...)
 			break
 		}
+		// binary.BigEndian.AppendUint16(b, v) appends the encoded integer: a piece like any other
+		if q := callQName(&cl.Call); strings.HasPrefix(q, "encoding/binary.") && strings.Contains(q, ".AppendUint") && len(cl.Call.Args) == 3 {
+			end := "LE"
+			if strings.Contains(q, "bigEndian") {
+				end = "BE"
+			}
+			out = append([]string{end + q[strings.LastIndex(q, "AppendUint")+10:] + "(" + shape(cl.Call.Args[2], 3) + ")"}, out...)
+			v = cl.Call.Args[1]
+			continue
+		}
 		b, ok := cl.Call.Value.(*ssa.Builtin)
 		if !ok || b.Name() != "append" {
 			out = append([]string{"init:" + shape(v, 3)}, out...)
